@@ -49,6 +49,7 @@ impl<'a> Lat<'a> {
                 Op::Call { node, .. } => calls.push((*node, E::Plain)),
                 Op::CallMask { node, slot, field, .. } => calls.push((*node, E::Mask(MASKS[(self.m.val(*slot, *field) % VMOD) as usize]))),
                 Op::CallShift { node, .. } => calls.push((*node, E::Shift)),
+                Op::CallSat { node, mask, .. } => calls.push((*node, E::Mask(*mask))),
                 Op::CallInc { node, slot, field, .. } => calls.push((*node, E::Inc(self.m.val(*slot, *field) % VMOD))),
                 Op::CallNot { node, .. } => calls.push((*node, E::Not)),
                 Op::If { slot, field, thr, then, els } => {
@@ -83,6 +84,7 @@ impl<'a> Lat<'a> {
                 Op::Call { node, .. } => *acc |= vals[*node as usize],
                 Op::CallMask { node, slot, field, .. } => *acc |= vals[*node as usize] & MASKS[(self.m.val(*slot, *field) % VMOD) as usize],
                 Op::CallShift { node, .. } => *acc |= (vals[*node as usize] << 1) & 0xFF,
+                Op::CallSat { node, mask, .. } => *acc |= vals[*node as usize] & *mask,
                 Op::CallInc { node, slot, field, .. } => {
                     let cap = self.m.val(*slot, *field) % VMOD;
                     let nv = vals[*node as usize].saturating_add(1);
